@@ -78,6 +78,11 @@ struct World {
     synced: BTreeSet<(usize, usize)>,
     client_ops: usize,
     produced_nothing: Vec<String>,
+    /// per produced delta: the origin's complete replicated value of that key right after the write
+    ideal: Vec<redis_sim::replication::state::ReplicatedValue>,
+    /// per node: what its replication state must be if it is exactly the merge (real ReplicatedValue::merge,
+    /// local.merge(incoming), in the order the node incorporated them) of everything it has incorporated
+    model: Vec<BTreeMap<String, redis_sim::replication::state::ReplicatedValue>>,
 }
 
 thread_local! {
@@ -95,6 +100,8 @@ impl World {
             synced: BTreeSet::new(),
             client_ops: 0,
             produced_nothing: Vec::new(),
+            ideal: Vec::new(),
+            model: vec![BTreeMap::new(); n],
         }
     }
 
@@ -113,9 +120,13 @@ impl World {
                 let cmd = resp::parse(&resp::line(OPS[*o])).expect("op parses");
                 let (_reply, delta) = self.nodes[*n].execute(cmd).await;
                 self.client_ops += 1;
+                // the writing node's own replication state is the ground truth for its own writes
+                let snap = self.nodes[*n].get_snapshot().await;
+                self.model[*n] = snap.iter().map(|(k, v)| (k.clone(), v.clone())).collect();
                 match delta {
                     Some(d) => {
                         let id = self.deltas.len();
+                        self.ideal.push(snap.get(&d.key).cloned().unwrap_or_else(|| d.value.clone()));
                         self.deltas.push((*n, d, *o));
                         self.knows[*n].insert(id);
                     }
@@ -125,6 +136,15 @@ impl World {
             Ev::Deliver(m, n) | Ev::Redeliver(m, n) => {
                 self.nodes[*n].apply_remote_delta(self.deltas[*m].1.clone());
                 let _ = self.nodes[*n].get_snapshot().await; // processed
+                {
+                    let key = self.deltas[*m].1.key.clone();
+                    let inc = self.ideal[*m].clone();
+                    let merged = match self.model[*n].remove(&key) {
+                        Some(local) => local.merge(&inc),
+                        None => inc,
+                    };
+                    self.model[*n].insert(key, merged);
+                }
                 if matches!(e, Ev::Deliver(..)) {
                     self.delivered.insert((*m, *n));
                 } else {
@@ -140,6 +160,16 @@ impl World {
                     self.nodes[*j].apply_remote_delta(ReplicationDelta::new(k, v, ReplicaId::new(*i as u64 + 1)));
                 }
                 let _ = self.nodes[*j].get_snapshot().await;
+                {
+                    let src: Vec<(String, redis_sim::replication::state::ReplicatedValue)> = self.model[*i].iter().map(|(k, v)| (k.clone(), v.clone())).collect();
+                    for (k, v) in src {
+                        let merged = match self.model[*j].remove(&k) {
+                            Some(local) => local.merge(&v),
+                            None => v,
+                        };
+                        self.model[*j].insert(k, merged);
+                    }
+                }
                 self.synced.insert((*i, *j));
                 let src = self.knows[*i].clone();
                 self.knows[*j].extend(src);
@@ -254,6 +284,15 @@ fn run(nodes: usize, max_ops: usize, alpha: &[Ev], hist: &[u16], ev: u16) -> Opt
                         format!("[{trace}]: node{n} key {k}: clients read {:?} but the node's replication state says {:?}", reads.get(&k), views.get(&k)),
                     )));
                 }
+                // the node's replication state must be exactly the merge of what it has incorporated
+                let want: BTreeMap<String, String> = w.model[n].iter().map(|(k, v)| (k.clone(), project(v))).collect();
+                if projs != want {
+                    let k = projs.keys().chain(want.keys()).find(|k| projs.get(*k) != want.get(*k)).unwrap().clone();
+                    return Some(Err((
+                        format!("replication-state!=merge-of-incorporated-updates ops={}", op_names(&evs)),
+                        format!("[{trace}]: node{n} key {k}: replication state is {:?}, but merging (real ReplicatedValue::merge, in the order the node incorporated them) the writers' complete values of everything this node has incorporated gives {:?}", projs.get(&k), want.get(&k)),
+                    )));
+                }
                 fp.push_str(&format!("n{n}:{:?}|{:?};", projs, reads));
                 all_reads.push(reads);
             }
@@ -323,7 +362,9 @@ fn main() {
     let all_ops: Vec<usize> = (0..OPS.len()).collect();
     let core_ops: Vec<usize> = vec![0, 1, 2, 4, 6, 9, 11, 13];
     let configs: Vec<(usize, usize, Vec<usize>, usize)> = if thorough {
-        vec![(2, 3, all_ops.clone(), 9), (3, 2, all_ops.clone(), 8), (3, 3, core_ops.clone(), 9)]
+        // last configuration: 4 client writes over {HSET one field, HINCRBY another, DEL}: a delta can meet a register of
+        // the other type whose stamp lies between two hash writes of one node
+        vec![(2, 3, all_ops.clone(), 9), (3, 2, all_ops.clone(), 8), (3, 3, core_ops.clone(), 9), (2, 4, vec![11, 14, 6], 8)]
     } else {
         vec![(2, 2, all_ops.clone(), 7), (2, 3, core_ops.clone(), 6)]
     };
